@@ -578,35 +578,56 @@ def extractCa (leaf : CertF) : Outcome String :=
   else if leaf.issuerCN == verify_processorIssuer then .ok verify_processorIssuerID
   else .err "PCK issuer CA unknown"
 
-/-- `verifyEvidenceV4` on prepared state -/
-def verifyEvidence (fx : Fixes) (C : Crypto) (w : World) (q : QuoteV4) (o : Opts) (T : TimeSet) (ch : Chain)
-    (ext : PckExt.PckExtensions) (col : Option Collateral) : Outcome Unit := do
-  runChecks [((q.header.getD default).teeType == abi_TeeTDX, "tee type")]
-  runChecks (chainChecks w ch o T col)
+/-- the collateral part of `verifyEvidenceV4`: `verifyCollateral`, `verifyTCBinfo`, `verifyQeIdentity` -/
+def collateralStage (C : Crypto) (w : World) (o : Opts) (T : TimeSet) (col : Option Collateral) : Outcome Unit :=
   if o.getCollateral then
-    runChecks (collateralChecks w o T col)
     match col with
     | none => .err "collateral nil"
-    | some c =>
-      runChecks (tcbInfoChecks C w o T c)
-      runChecks (qeIdentityChecks C w o T c)
-  verifyQuoteLinks C q ch.leaf
+    | some c => runChecks (collateralChecks w o T col ++ tcbInfoChecks C w o T c ++ qeIdentityChecks C w o T c)
+  else .ok ()
+
+/-- the collateral-driven part of `verifyQuote`: `verifyTdQuoteBody`, `verifyQeReport` -/
+def tcbStage (fx : Fixes) (q : QuoteV4) (ext : PckExt.PckExtensions) (col : Option Collateral) : Outcome Unit :=
   match col with
   | none => .ok ()
   | some c =>
-    tdBodyCheck fx c.tcb (q.tdQuoteBody.getD default) ext
+    tdBodyCheck fx c.tcb (q.tdQuoteBody.getD default) ext >>= fun _ =>
     qeReportCheck c.qe (((qeCertData q).getD default).qeReport.getD default)
+
+/-- `verifyEvidenceV4` on prepared state -/
+def verifyEvidence (fx : Fixes) (C : Crypto) (w : World) (q : QuoteV4) (o : Opts) (T : TimeSet) (ch : Chain)
+    (ext : PckExt.PckExtensions) (col : Option Collateral) : Outcome Unit :=
+  runChecks (((q.header.getD default).teeType == abi_TeeTDX, "tee type") :: chainChecks w ch o T col) >>= fun _ =>
+  collateralStage C w o T col >>= fun _ =>
+  verifyQuoteLinks C q ch.leaf >>= fun _ =>
+  tcbStage fx q ext col
+
+/-- the fetch part of `tdxQuoteV4`: nothing without `GetCollateral`, otherwise `obtainCollateral` for the leaf's FMSPC and CA -/
+def fetchStage (fx : Fixes) (w : World) (o : Opts) (ch : Chain) (ext : PckExt.PckExtensions) : List String × Outcome (Option Collateral) :=
+  if o.getCollateral then
+    match extractCa (cert w ch.leaf) with
+    | .err e => ([], .err e)
+    | .panic => ([], .panic)
+    | .ok ca =>
+      ((obtainCollateral fx w ext.fmspc ca o.checkRevocations).1,
+       match (obtainCollateral fx w ext.fmspc ca o.checkRevocations).2 with
+       | .ok c => .ok (some c)
+       | .err e => .err e
+       | .panic => .panic)
+  else ([], .ok none)
 
 /-- `verify.TdxQuote(quote, options)` for a `*pb.QuoteV4` (`none` = typed nil pointer) -/
 def tdxQuote (fx : Fixes) (C : Crypto) (w : World) (q : Option QuoteV4) (o : Opts) : Result :=
   let keep : Result := { verdict := .ok (), urls := [], nowAfter := o.now }
   -- the log statements dereference quote.Header before the structural check (finding F2)
   if !fx.f2 && (q.bind (·.header)).isNone then { keep with verdict := .panic } else
-  match checkQuoteV4 q, q with
-  | .err e, _ => { keep with verdict := .err e }
-  | .panic, _ => { keep with verdict := .panic }
-  | .ok _, none => { keep with verdict := .err "quote nil" }
-  | .ok _, some q =>
+  match q with
+  | none => { keep with verdict := .err "quote nil" }
+  | some q =>
+  match checkQuoteV4 (some q) with
+  | .err e => { keep with verdict := .err e }
+  | .panic => { keep with verdict := .panic }
+  | .ok _ =>
   match extractChain w.chainPem with
   | .err e => { keep with verdict := .err e }
   | .panic => { keep with verdict := .panic }
@@ -615,23 +636,13 @@ def tdxQuote (fx : Fixes) (C : Crypto) (w : World) (q : Option QuoteV4) (o : Opt
   | .err e => { keep with verdict := .err e }
   | .panic => { keep with verdict := .panic }
   | .ok ext =>
-  let fetched : List String × Outcome (Option Collateral) :=
-    if o.getCollateral then
-      match extractCa (cert w ch.leaf) with
-      | .err e => ([], .err e)
-      | .panic => ([], .panic)
-      | .ok ca =>
-        let (us, r) := obtainCollateral fx w ext.fmspc ca o.checkRevocations
-        (us, match r with | .ok c => .ok (some c) | .err e => .err e | .panic => .panic)
-    else ([], .ok none)
-  match fetched with
-  | (us, .err e) => { keep with verdict := .err e, urls := us }
-  | (us, .panic) => { keep with verdict := .panic, urls := us }
-  | (us, .ok col) =>
-    let T := o.now.getD (defaultTimeSet w.clock)
-    { verdict := verifyEvidence fx C w q o T ch ext col
-      urls := us
-      nowAfter := if fx.f9 then o.now else some T }
+  match (fetchStage fx w o ch ext).2 with
+  | .err e => { keep with verdict := .err e, urls := (fetchStage fx w o ch ext).1 }
+  | .panic => { keep with verdict := .panic, urls := (fetchStage fx w o ch ext).1 }
+  | .ok col =>
+    { verdict := verifyEvidence fx C w q o (o.now.getD (defaultTimeSet w.clock)) ch ext col
+      urls := (fetchStage fx w o ch ext).1
+      nowAfter := if fx.f9 then o.now else some (o.now.getD (defaultTimeSet w.clock)) }
 
 /-! ### `SupportedTcbLevelsFromCollateral` (level reporting API) on the state a call left behind -/
 
@@ -670,23 +681,21 @@ def supportedTcbLevels (f5 : Bool) (fx : Fixes) (doc : TcbInfoDoc) (qe : QeIdDoc
 /-- what `tdxQuoteV4` leaves in the hidden fields of the options (`none`: it returned before storing anything) -/
 def stateAfter (fx : Fixes) (w : World) (q : Option QuoteV4) (o : Opts) : Option (Option Collateral × PckExt.PckExtensions) :=
   if !fx.f2 && (q.bind (·.header)).isNone then none else
-  match checkQuoteV4 q, q with
-  | .ok _, some _ =>
+  match q with
+  | none => none
+  | some q =>
+  match checkQuoteV4 (some q) with
+  | .ok _ =>
     match extractChain w.chainPem with
     | .ok ch =>
       match PckExt.pckCertificateExtensions (cert w ch.leaf).pck with
       | .ok ext =>
-        if o.getCollateral then
-          match extractCa (cert w ch.leaf) with
-          | .ok ca =>
-            match (obtainCollateral fx w ext.fmspc ca o.checkRevocations).2 with
-            | .ok c => some (some c, ext)
-            | _ => none
-          | _ => none
-        else some (none, ext)
+        match (fetchStage fx w o ch ext).2 with
+        | .ok col => some (col, ext)
+        | _ => none
       | _ => none
     | _ => none
-  | _, _ => none
+  | _ => none
 
 /-- `verify.SupportedTcbLevelsFromCollateral(quote, options)` called right after `verify.TdxQuote(quote, options)`
     on the same options value -/
